@@ -121,7 +121,7 @@ func runC09(c *Ctx) {
 		if !strings.HasPrefix(funcName(site.Parent()), "(*Conn).") {
 			continue
 		}
-		for _, l := range leafSources(callCommon(site).Args[0]) {
+		for _, l := range leafSourcesThroughHelpers(callCommon(site).Args[0], okLeaf.MatchString) {
 			R.Ob(c.siteKey(site, "Next argument source "+l), c.P.InstrPos(site), okLeaf.MatchString(l), "sasl.Server.Next can receive "+l)
 		}
 	}
